@@ -2,7 +2,9 @@
    Only the property theorems (about Model/Huffman.v and the regenerated
    Gen/HuffTable.v), each closed by lemmas proved in Proofs/Huffman*.v. *)
 From LibTw2 Require Import Base.Res Model.Huffman Gen.HuffTable
-  Proofs.HuffmanBits Proofs.HuffmanCompress Proofs.HuffmanDecode Proofs.HuffmanTable.
+  Model.HuffmanRef
+  Proofs.HuffmanBits Proofs.HuffmanCompress Proofs.HuffmanDecode Proofs.HuffmanTable
+  Proofs.HuffmanRefProofs Proofs.HuffmanRefDec.
 From Coq Require Import ZArith List Lia Bool.
 Import ListNotations.
 Open Scope Z_scope.
@@ -34,6 +36,14 @@ Theorem C07_roundtrip : forall t x bug ccap c tail cap fuel,
   (length x <= cap)%nat -> (length c <= fuel)%nat ->
   decompress fuel t (c ++ tail) cap = Ok x.
 Proof. exact roundtrip. Qed.
+
+(* the same for the built-in table, i.e. for the public functions compress_into / compress /
+   decompress_into of the crate *)
+Corollary C07_builtin_roundtrip : forall x bug ccap c tail cap fuel,
+  bytes_ok x = true -> compress teeworlds x bug ccap = Ok c ->
+  (length x <= cap)%nat -> (length c <= fuel)%nat ->
+  decompress fuel teeworlds (c ++ tail) cap = Ok x.
+Proof. intros x bug ccap c tail cap fuel. apply roundtrip. exact C07_builtin_wf. Qed.
 
 (* ... and through the Vec API (capacities 3 * len + 3 and 8 * len): no panic, no error *)
 Theorem C07_roundtrip_vec : forall t x, wf_table t = true -> bytes_ok x = true ->
@@ -71,6 +81,31 @@ Theorem C07_decoder_total : forall t y cap, wf_table t = true ->
      end.
 Proof. intros t y cap Hwf. destruct (decoder_total t y cap Hwf) as [H1 H2]. split; assumption. Qed.
 
+(* (5) agreement with the C++ original (Model/HuffmanRef.v, run against the real C++ by the
+   harness). Compressor: CHuffman::Compress (32-bit `unsigned Bits`, the `pDst == pDstEnd`
+   failure after each byte, the unchecked last byte) holding the same code words writes byte
+   for byte what compress_bug writes, and returns -1 exactly when compress_bug reports the
+   capacity error (any buffer of >= 1 byte; with OutputSize = 0 the C++ writes out of bounds). *)
+Theorem C07_ref_compress : forall t x cap, wf_table t = true -> bytes_ok x = true -> (1 <= cap)%nat ->
+  ref_compress t x cap = compress t x true cap.
+Proof. exact ref_compress_eq. Qed.
+
+(* the built-in table is a tree whose leaves sit at the depth their num_bits says (what the
+   C++ side's m_NumBits are by construction); written out instead of `tree_table teeworlds` *)
+Theorem C07_builtin_tree : depths_ok teeworlds 24 ROOT_IDX 0 = true.
+Proof. vm_compute. reflexivity. Qed.
+
+(* Decoder: whenever CHuffman::Decompress (10-bit decode LUT, 32-bit bit buffer refilled below
+   24 bits, unsigned Bitcount wrap-around at the end of the input, bit-by-bit tail walk with its
+   `Bitcount == 0` failure, `pDst == pDstEnd` failure) returns successfully, this decoder
+   returns the same bytes, for every capacity that holds them and every sufficient fuel *)
+Theorem C07_ref_decompress : forall t y fuel cap res,
+  wf_table t = true -> depths_ok t 24 ROOT_IDX 0 = true -> bytes_ok y = true ->
+  ref_decompress fuel t y cap = Ok res ->
+  forall cap' fuel', (length res <= cap')%nat -> (dec_fuel y cap' <= fuel')%nat ->
+  decompress fuel' t y cap' = Ok res.
+Proof. exact ref_decompress_agrees. Qed.
+
 (* (6) the built-in table is exactly what from_frequencies builds from data/frequencies *)
 Theorem C07_builtin_is_built : from_frequencies frequencies = Ok teeworlds.
 Proof. vm_compute. reflexivity. Qed.
@@ -98,17 +133,25 @@ Example C07_nonvacuous :
   /\ compress teeworlds [0] true 9 = Ok [21; 55; 0]
   /\ compressed_len teeworlds [0] = Ok 2 /\ compressed_len_bug teeworlds [0] = Ok 3
   /\ decompress (dec_fuel [255; 255] 5) teeworlds [255; 255] 5 = Err Capacity
-  /\ decompress_into_vec teeworlds [255; 255] = Err InvalidInput.
+  /\ decompress_into_vec teeworlds [255; 255] = Err InvalidInput
+  /\ ref_decompress 9 teeworlds [177; 8; 42; 110; 0] 7 = Ok [0; 1; 0; 2; 0; 128; 0]
+  /\ ref_decompress 9 teeworlds [177; 8; 42; 110] 7 = Err tt
+  /\ decompress 9 teeworlds [177; 8; 42; 110] 7 = Ok [0; 1; 0; 2; 0; 128; 0]
+  /\ ref_compress teeworlds [0] 3 = Ok [21; 55; 0] /\ ref_compress teeworlds [0] 2 = Err tt.
 Proof. vm_compute. repeat split. Qed.
 
 Print Assumptions C07_builtin_table.
 Print Assumptions C07_consts.
 Print Assumptions C07_builtin_wf.
 Print Assumptions C07_roundtrip.
+Print Assumptions C07_builtin_roundtrip.
 Print Assumptions C07_roundtrip_vec.
 Print Assumptions C07_spec.
 Print Assumptions C07_len.
 Print Assumptions C07_decoder_total.
+Print Assumptions C07_ref_compress.
+Print Assumptions C07_builtin_tree.
+Print Assumptions C07_ref_decompress.
 Print Assumptions C07_builtin_is_built.
 Print Assumptions C07_from_frequencies_total_refuted.
 Print Assumptions C07_nonvacuous.
